@@ -190,6 +190,16 @@ func genHeader(t *rapid.T, f features, goos, goarch string) (string, []string) {
 				b.WriteString("\n")
 			}
 		}
+		// the options of a line are separated by one space, by several, or by a tab
+		if w := rapid.IntRange(0, 3).Draw(t, "optsep"); w > 0 {
+			sp := []string{"", "  ", "\t", " \t "}[w]
+			for i, l := range lines {
+				if rest := strings.TrimPrefix(l, "// +build "); strings.Contains(rest, " ") {
+					lines[i] = "// +build " + strings.Join(strings.Fields(rest), sp)
+					labels = append(labels, "plusbuild-wide-separators")
+				}
+			}
+		}
 		for i, l := range lines {
 			b.WriteString(l + "\n")
 			if groups >= 1 && i+1 < len(lines) && rapid.Bool().Draw(t, "split") {
